@@ -80,8 +80,12 @@ class ModbusBinaryFramer(ModbusFramer):
         end = self._buffer.find(self._end)
         if end != -1:
             self._header['len'] = end
-            self._header['uid'] = struct.unpack('>B', self._buffer[1:2])[0]
-            self._header['crc'] = struct.unpack('>H', self._buffer[end - 2:end])[0]
+            try:
+                self._header['uid'] = struct.unpack('>B', self._buffer[1:2])[0]
+                self._header['crc'] = struct.unpack('>H', self._buffer[end - 2:end])[0]
+            except struct.error:
+                # too short to hold a unit id and a checksum: a bad frame
+                return False
             data = self._buffer[start + 1:end - 2]
             return checkCRC(data, self._header['crc'])
         return False
@@ -165,9 +169,15 @@ class ModbusBinaryFramer(ModbusFramer):
         while self.isFrameReady():
             if self.checkFrame():
                 if self._validate_unit_id(unit, single):
-                    result = self.decoder.decode(self.getFrame())
-                    if result is None:
-                        raise ModbusIOException("Unable to decode response")
+                    try:
+                        result = self.decoder.decode(self.getFrame())
+                        if result is None:
+                            raise ModbusIOException("Unable to decode response")
+                    except Exception:
+                        # whatever is wrong with this frame, it must not
+                        # block the frames that follow it
+                        self.advanceFrame()
+                        raise
                     self.populateResult(result)
                     self.advanceFrame()
                     callback(result)  # defer or push to a thread?
